@@ -160,18 +160,15 @@ func checkC13(c *Ctx) {
 	ms := c.Method(CorePath, "multiWriteSyncer", "Sync")
 	if c.Anchor("R13.2", "zapcore.multiWriteSyncer.Sync", ms != nil) {
 		name := ms.String()
-		var syncCall *ssa.Call
-		for _, cl := range Calls(ms) {
-			if IsCallTo(cl, "(go.uber.org/zap/zapcore.WriteSyncer).Sync") {
-				syncCall, _ = cl.(*ssa.Call)
-			}
+		selSync := func(cl ssa.CallInstruction) bool {
+			return IsCallTo(cl, "(go.uber.org/zap/zapcore.WriteSyncer).Sync") && cl.Common().IsInvoke()
 		}
+		ok, why, syncCall, _ := VisitsAll(ms, selSync, ms.Params[0])
 		if syncCall == nil {
-			c.Bad("R13.2", name, "sync-call", ms.Pos(), "no call of WriteSyncer.Sync on the elements")
+			c.Bad("R13.2", name, "sync-call", ms.Pos(), "no call of WriteSyncer.Sync on the elements (%s)", why)
 		} else {
-			ok, over, why := LoopVisitsAll(ms, syncCall)
-			c.Check(ok && over == ms.Params[0].Name(), "R13.2", name, "visits-all", syncCall.Pos(), "Sync is called in a range loop over the receiver with no early exit (%s%s)", over, why)
-			c13ErrFold(c, ms, syncCall, syncCall, "R13.2", name)
+			c.Check(ok, "R13.2", name, "visits-all", syncCall.Pos(), "Sync is called on every element of the receiver with no early exit %s", why)
+			c13ErrFoldSel(c, ms, selSync, syncCall.Pos(), "WriteSyncer.Sync", "R13.2", name)
 		}
 	}
 
@@ -248,6 +245,114 @@ func itoa(i int) string { return strconv.Itoa(i) }
 // value itself for single-result calls) is folded with multierr.Append into
 // the error the function returns, on every iteration.
 func c13ErrFold(c *Ctx, fn *ssa.Function, loopCall, errSrc *ssa.Call, rule, name string) {
+	res := fn.Signature.Results()
+	if res.Len() > 0 && res.At(res.Len()-1).Type().String() == "error" {
+		c13ErrFoldPaths(c, fn, errSrc, rule, name)
+		return
+	}
+	c13ErrFoldShape(c, fn, loopCall, errSrc, rule, name)
+}
+
+// c13ErrFoldPaths: by path exploration over up to two elements, each inner call failing or not: the function returns a
+// non-nil error exactly when some inner call failed (whatever way the errors are accumulated).
+func c13ErrFoldPaths(c *Ctx, fn *ssa.Function, errSrc *ssa.Call, rule, name string) {
+	callee := CalleeFunc(errSrc)
+	c13ErrFoldSel(c, fn, func(ci ssa.CallInstruction) bool {
+		cl, ok := ci.(*ssa.Call)
+		if !ok {
+			return false
+		}
+		if cl == errSrc {
+			return true
+		}
+		return callee != nil && CalleeFunc(cl) == callee && cl.Call.IsInvoke() == errSrc.Call.IsInvoke()
+	}, errSrc.Pos(), FuncName(callee), rule, name)
+}
+
+// c13ErrFoldSel: as above, the inner calls being those selected by sel (wherever they sit: fn, a helper, a function
+// literal or method expression handed to a helper).
+func c13ErrFoldSel(c *Ctx, fn *ssa.Function, sel func(ssa.CallInstruction) bool, pos token.Pos, what, rule, name string) {
+	errIdx := func(cl *ssa.Call) int {
+		if t, ok := cl.Type().(*types.Tuple); ok {
+			return t.Len() - 1
+		}
+		return -1
+	}
+	cut := 0
+	seqs, trunc := ConcPaths(fn, ConcCfg{
+		MaxIter: 2, Cut: &cut, IterClosures: true,
+		Fork: func(in ssa.Instruction, st *ConcState) []ConcAlt {
+			var v ssa.Value
+			switch x := in.(type) {
+			case *ssa.Call:
+				if sel(x) && errIdx(x) < 0 {
+					v = x
+				}
+			case *ssa.Extract:
+				if cl, ok := x.Tuple.(*ssa.Call); ok && sel(cl) && x.Index == errIdx(cl) {
+					v = x
+				}
+			}
+			if v == nil {
+				return nil
+			}
+			return []ConcAlt{{Ev: "ok", Nils: map[ssa.Value]bool{v: true}}, {Ev: "fail", Nils: map[ssa.Value]bool{v: false}}}
+		},
+		Event: func(in ssa.Instruction, st *ConcState) string {
+			if r, ok := in.(*ssa.Return); ok {
+				n, known := st.IsNil(r.Results[len(r.Results)-1])
+				switch {
+				case !known:
+					return "ret-?(" + st.Desc(r.Results[len(r.Results)-1]) + ")"
+				case n:
+					return "ret-nil"
+				}
+				return "ret-err"
+			}
+			return ""
+		},
+	})
+	if trunc || len(seqs) == 0 {
+		c.Und(rule, name, "errors-appended", pos, "path exploration incomplete (%d sequences)", len(seqs))
+		return
+	}
+	var bad, unk []string
+	nFail := 0
+	for _, sq := range seqs {
+		toks := strings.Split(sq, " ; ")
+		failed := false
+		for _, t := range toks {
+			if t == "fail" {
+				failed = true
+			}
+		}
+		last := toks[len(toks)-1]
+		if failed {
+			nFail++
+		}
+		switch {
+		case strings.HasPrefix(last, "ret-?") && failed:
+			unk = append(unk, sq)
+		case failed && last != "ret-err":
+			bad = append(bad, sq)
+		case !failed && last == "ret-err":
+			bad = append(bad, sq)
+		}
+	}
+	if len(bad) == 0 && len(unk) > 0 {
+		c.Und(rule, name, "errors-appended", pos, "cannot tell whether the returned error is nil on path: %s", unk[0])
+		return
+	}
+	ex := ""
+	if len(bad) > 0 {
+		ex = bad[0]
+	}
+	c.Check(len(bad) == 0 && nFail > 0, rule, name, "errors-appended", pos,
+		"by path exploration (%d paths over up to two elements, %d with a failing %s; %d longer paths cut): the returned error is non-nil exactly when some inner call failed (offending path: %s)",
+		len(seqs), nFail, what, cut, ex)
+}
+
+func c13ErrFoldShape(c *Ctx, fn *ssa.Function, loopCall, errSrc *ssa.Call, rule, name string) {
 	var appendCall *ssa.Call
 	for _, cl := range Calls(fn) {
 		if !IsCallTo(cl, "go.uber.org/multierr.Append") {
@@ -321,117 +426,141 @@ func c13MultiWrite(c *Ctx, fn *ssa.Function) {
 		f := CalleeFunc(cl)
 		return f != nil && f.Name() == "Write" && isWriteSig(f.Type().(*types.Signature)) && cl.Common().IsInvoke()
 	}
-	okV, why, wc, wfn := VisitsAll(fn, isInner, fn.Params[0])
-	if wc == nil || wfn != fn {
-		c.Bad("R13.2", name, "inner-write", fn.Pos(), "no inner Write call in a loop of this function (%s)", why)
+	okV, why, wc, _ := VisitsAll(fn, isInner, fn.Params[0])
+	if wc == nil {
+		c.Bad("R13.2", name, "inner-write", fn.Pos(), "no inner Write call that reaches every sink (%s)", why)
 		return
-	}
-	var headCount ssa.Value
-	for _, cl := range Calls(fn) {
-		c2, isCall := cl.(*ssa.Call)
-		if !isCall || !isInner(cl) {
-			continue
-		}
-		c.Check(len(c2.Call.Args) == 1 && c2.Call.Args[0] == p, "R13.2", name, "same-bytes", c2.Pos(), "every sink is given %s (must be the original parameter %s)", Desc(c2.Call.Args[0]), p.Name())
-		if c2 != wc && c2.Referrers() != nil {
-			for _, r := range *c2.Referrers() {
-				if ex, ok := r.(*ssa.Extract); ok && ex.Index == 0 {
-					headCount = ex
-				}
-			}
-		}
 	}
 	c.Check(okV, "R13.2", name, "visits-all", wc.Pos(), "the inner Write reaches every sink of the receiver with no early exit %s", why)
-	c13ErrFold(c, fn, wc, wc, "R13.2", name)
 
-	// min-fold of the count
-	var nVal ssa.Value
-	if wc.Referrers() != nil {
-		for _, r := range *wc.Referrers() {
-			if ex, ok := r.(*ssa.Extract); ok && ex.Index == 0 {
-				nVal = ex
+	// by path exploration over up to two sinks, each accepting 1 or 2 bytes and failing or not: every sink is given the
+	// caller's bytes, the count returned is the smallest any sink accepted, the error is non-nil exactly when one failed
+	resolve := func(st *ConcState, v ssa.Value) ssa.Value {
+		v = stripConv(v)
+		for k := 0; k < 12; k++ {
+			nx := st.Step(v)
+			if nx == nil {
+				break
 			}
+			v = stripConv(nx)
 		}
+		return v
 	}
-	var acc *ssa.Phi
-	for _, r := range Returns(fn) {
-		if ph, ok := Strip(r.Results[0]).(*ssa.Phi); ok {
-			acc = ph
-		} else if v, isC := ConstInt(r.Results[0]); isC && v == 0 && HasAtom(Guards(r), func(a string) bool { return a == "len("+fn.Params[0].Name()+") == 0" }) {
-			// no sinks at all: nothing written
-		} else {
-			c.Bad("R13.2", name, "min-fold", r.Pos(), "returned count %s is not a loop accumulator", Desc(r.Results[0]))
-			return
-		}
-	}
-	if acc == nil || nVal == nil {
-		c.Und("R13.2", name, "min-fold", fn.Pos(), "cannot identify the count accumulator / the per-sink count")
+	cut := 0
+	seqs, trunc := ConcPaths(fn, ConcCfg{
+		MaxIter: 2, Cut: &cut, IterClosures: true,
+		Event: func(in ssa.Instruction, st *ConcState) string {
+			switch x := in.(type) {
+			case *ssa.Call:
+				if isInner(x) {
+					if len(x.Call.Args) == 1 && resolve(st, x.Call.Args[0]) == ssa.Value(p) {
+						return "write"
+					}
+					return "write-other(" + st.Desc(x.Call.Args[0]) + ")"
+				}
+			case *ssa.Return:
+				s := "ret("
+				if k, ok := st.Int(x.Results[0]); ok {
+					s += itoa(int(k))
+				} else {
+					s += "?" + st.Desc(x.Results[0])
+				}
+				n, known := st.IsNil(x.Results[1])
+				switch {
+				case !known:
+					s += ",?"
+				case n:
+					s += ",nil"
+				default:
+					s += ",err"
+				}
+				return s + ")"
+			}
+			return ""
+		},
+		Fork: func(in ssa.Instruction, st *ConcState) []ConcAlt {
+			ex, ok := in.(*ssa.Extract)
+			if !ok {
+				return nil
+			}
+			cl, ok := ex.Tuple.(*ssa.Call)
+			if !ok || !isInner(cl) {
+				return nil
+			}
+			if ex.Index == 0 {
+				return []ConcAlt{{Ev: "n=1", Ints: map[ssa.Value]int64{ex: 1}}, {Ev: "n=2", Ints: map[ssa.Value]int64{ex: 2}}}
+			}
+			return []ConcAlt{{Ev: "ok", Nils: map[ssa.Value]bool{ex: true}}, {Ev: "fail", Nils: map[ssa.Value]bool{ex: false}}}
+		},
+	})
+	if trunc || len(seqs) == 0 {
+		c.Und("R13.2", name, "min-fold", fn.Pos(), "path exploration incomplete (%d sequences)", len(seqs))
 		return
 	}
-	// classify incoming edges of the accumulator phi
-	var seed ssa.Value
-	type upd struct {
-		conds []string
-	}
-	firstIdiom, minIdiom := false, false
-	foldIfs := map[ssa.Value]bool{}
-	var bad []string
-	for i, e := range acc.Edges {
-		pred := acc.Block().Preds[i]
-		switch {
-		case Strip(e) == ssa.Value(acc):
-			// keep
-		case Strip(e) == nVal:
-			for _, cond := range edgeConds(pred) {
-				switch {
-				case isMinCond(cond, nVal, acc):
-					minIdiom = true
-					foldIfs[cond.Cond] = true
-				case isFirstElemCond(cond):
-					firstIdiom = true
-					foldIfs[cond.Cond] = true
-				default:
-					bad = append(bad, AtomString(cond))
+	var badBytes, badMin, badErr, unk []string
+	two := 0
+	for _, sq := range seqs {
+		toks := strings.Split(sq, " ; ")
+		writes, fails, min := 0, 0, int64(-1)
+		counted := 0
+		for _, t := range toks {
+			switch {
+			case t == "write":
+				writes++
+			case strings.HasPrefix(t, "write-other"):
+				writes++
+				badBytes = append(badBytes, sq)
+			case t == "fail":
+				fails++
+			case strings.HasPrefix(t, "n="):
+				counted++
+				k := int64(t[2] - '0')
+				if min < 0 || k < min {
+					min = k
 				}
 			}
-		default:
-			if call, ok := Strip(e).(*ssa.Call); ok && CallBuiltin(call) == "min" {
-				minIdiom = true
-				continue
+		}
+		if writes == 2 {
+			two++
+		}
+		last := toks[len(toks)-1]
+		if !strings.HasPrefix(last, "ret(") {
+			continue
+		}
+		f := strings.Split(strings.TrimSuffix(strings.TrimPrefix(last, "ret("), ")"), ",")
+		cnt, er := f[0], f[len(f)-1]
+		if writes > 0 {
+			switch {
+			case counted < writes:
+				// the count of some sink is never looked at: it cannot enter the minimum
+				badMin = append(badMin, sq)
+			case strings.HasPrefix(cnt, "?"):
+				unk = append(unk, sq)
+			case cnt != itoa(int(min)):
+				badMin = append(badMin, sq)
 			}
-			if !pred.Dominates(acc.Block()) || LoopHeader(pred) == acc.Block() {
-				bad = append(bad, "edge value "+Desc(e))
-				continue
-			}
-			seed = e
+		}
+		switch {
+		case er == "?":
+			unk = append(unk, sq)
+		case (fails > 0) != (er == "err"):
+			badErr = append(badErr, sq)
 		}
 	}
-	seedOK := firstIdiom
-	seedDesc := Desc(seed)
-	if seed != nil && headCount != nil && Strip(seed) == headCount {
-		seedOK = true // the first sink's own count, taken before the loop over the rest
-	}
-	if !seedOK && seed != nil {
-		if isLenOf(seed, p) {
-			seedOK = true
+	first := func(l []string) string {
+		if len(l) == 0 {
+			return ""
 		}
-		if v, ok := ConstInt(seed); ok && v >= 1<<31-1 {
-			seedOK = true
-		}
+		return l[0]
 	}
-	// every sink's count must enter the fold: no path from the inner Write back
-	// to the loop header that evaluates none of the fold conditions.
-	if h := LoopHeader(wc.Block()); h != nil && len(foldIfs) > 0 {
-		if ExistsPath(fn, wc, func(x ssa.Instruction) bool { return x.Block() == h }, func(x ssa.Instruction) bool {
-			iff, ok := x.(*ssa.If)
-			return ok && foldIfs[iff.Cond]
-		}) {
-			bad = append(bad, "some path of the loop body skips the fold (a sink's count never enters the minimum)")
-		}
+	if len(unk) > 0 && len(badMin) == 0 && len(badErr) == 0 {
+		c.Und("R13.2", name, "min-fold", fn.Pos(), "the returned count/error is not determined on path: %s", unk[0])
+		return
 	}
-	c.Check(len(bad) == 0 && minIdiom && seedOK, "R13.2", name, "min-fold", acc.Pos(),
-		"count accumulator: updated under n<acc=%v, first element selected by index/flag=%v, seed=%s, unaccepted update conditions=%v (a guard comparing the accumulator with its seed value is a sentinel and loses a genuine count equal to it)",
-		minIdiom, firstIdiom, seedDesc, bad)
+	c.Check(len(badBytes) == 0, "R13.2", name, "same-bytes", wc.Pos(), "every sink is given the caller's bytes (offending path: %s)", first(badBytes))
+	c.Check(len(badMin) == 0 && two > 0, "R13.2", name, "min-fold", fn.Pos(),
+		"by path exploration (%d paths, %d with two sinks; %d longer paths cut): the count returned is the smallest count any sink reported - also when that is the first sink's, and when it equals the initial value of the accumulator (offending path: %s)", len(seqs), two, cut, first(badMin))
+	c.Check(len(badErr) == 0, "R13.2", name, "errors-appended", wc.Pos(), "the error returned is non-nil exactly when some sink's Write failed (offending path: %s)", first(badErr))
 }
 
 // edgeConds returns, for a block that carries an update into a phi, the
